@@ -150,6 +150,18 @@ def build(tier="quick", seed=0):
        lambda p: ((not p.value[4]) and z3.And(tb(p.value[0]) == z3.And(n1 == n2, s1 == s2), tb(p.value[1]) == tb(p.value[0]), z3.Implies(z3.And(n1 == n2, s1 == s2), hterm(p.value[2]) == hterm(p.value[3]))),
                   f"records of EQUAL descriptors whose classes differ (class cache eviction): == {p.value[0]!r} / reversed {p.value[1]!r} (harness built distinct classes: {not p.value[4]})"), "evicted")
 
+    # ---- two DIFFERENT descriptors whose identifiers coincide (same name, same unseparated field text): their records are not equal
+    def th_coincidence():
+        C = it.call(RD, ["c12/x", [("string", "a"), ("string", "stringb")]], {})
+        D = it.call(RD, ["c12/x", [("string", "astring"), ("string", "b")]], {})
+        c = it.call(C, ["1", "2"], {})
+        d = it.call(D, ["1", "2"], {"_generated": c.attrs["_generated"]})
+        return it.compare("Eq", C, D), it.compare("Eq", c, d), it.compare("Eq", d, c)
+
+    pack.add(Obligation("C12.eq.coincidence[descriptors whose identifiers coincide]", lambda tier: prove_paths("C12.eq.coincidence[descriptors whose identifiers coincide]", with_clean_config(th_coincidence),
+                        lambda p: (z3.And(z3.Not(tb(p.value[1])), z3.Not(tb(p.value[2]))), f"records of two different descriptors (descriptors equal: {p.value[0]!r}) compare equal: {p.value[1]!r} / {p.value[2]!r}"), lambda m_, p: {}),
+                        replay=lambda w: {"call": "c12_coincidence", "args": {}}, functions=FU, mode="the representative pair"))
+
     # ---- a grouped record whose member changes after it was hashed: equal records still have equal hashes
     def th_grouped_mutation():
         A = it.call(RD, ["c12/ga", [("varint", "n")]], {})
